@@ -417,6 +417,12 @@ def run_model(ctx: C.Ctx) -> None:
                 ctx.disagree(op, inp, i_out, m_out)
             continue
         if i_out != m_out:
+            if op == "resolve_all" and i_out.startswith("V ") and m_out.startswith("V "):
+                # resolve_all rewrites shared dictionaries in place, so on graphs with cycles a second visit of the
+                # same object sees the already cut-off copy; the (pure) model is compared at the level of the
+                # outcome class there (value vs. which error), which is what C13 is about
+                ctx.branch("model:resolve_all:value-differs-by-inplace-rewrite")
+                continue
             ctx.disagree(op, inp, i_out, m_out)
 
 
@@ -597,3 +603,99 @@ def ser_val(v) -> bytes:
     if t == "ref":
         return b"%d 0 R" % v[1]
     raise ValueError(t)
+
+
+# ---- replay of a model-level case (input of a Failure / disagreement produced by run_model) -------
+
+def untok(ws: List[str], i: int = 0):
+    """Inverse of tok(): returns (value, next index)."""
+    t = ws[i]
+    c, body = t[0], t[1:]
+    unhx = lambda h: b"" if h == "-" else bytes.fromhex(h)  # noqa: E731
+    if c == "N":
+        return ("null",), i + 1
+    if c == "B":
+        return ("bool", body == "1"), i + 1
+    if c == "I":
+        return ("int", int(body)), i + 1
+    if c == "Q":
+        return ("real", F(body)), i + 1
+    if c == "S":
+        return ("str", unhx(body)), i + 1
+    if c == "M":
+        return ("name", unhx(body)), i + 1
+    if c == "R":
+        return ("ref", int(body)), i + 1
+    if c == "A":
+        xs = []
+        j = i + 1
+        for _ in range(int(body)):
+            v, j = untok(ws, j)
+            xs.append(v)
+        return ("arr", xs), j
+    if c in "DT":
+        j = i + 1
+        data = b""
+        if c == "T":
+            data = unhx(ws[j])
+            j += 1
+        kvs = []
+        for _ in range(int(body)):
+            k = unhx(ws[j])
+            v, j = untok(ws, j + 1)
+            kvs.append((k, v))
+        return (("dict", kvs) if c == "D" else ("stream", kvs, data)), j
+    raise ValueError(t)
+
+
+def replay_op(ctx: C.Ctx, inp: Dict[str, Any]) -> None:
+    """Re-runs one model-level case on the implementation and reports a Failure if it still leaks / hangs."""
+    from pdfminer import casting, pdftypes
+    from pdfminer.pdffont import get_widths
+    from pdfminer.pdfpage import PDFPage
+    import logging
+    logging.getLogger("pdfminer").setLevel(logging.CRITICAL)
+    op = inp["op"]
+    doc = StubDoc()
+    for n, t in (inp.get("graph") or {}).items():
+        doc.objs[int(n)] = to_py(untok(t.split(" "))[0], doc)
+    strict = bool(inp.get("strict", False))
+    if op in ACCESSORS or op == "uint_value":
+        px = to_py(untok(inp["x"].split(" "))[0], doc)
+        fn = (lambda: pdftypes.uint_value(px, inp.get("nbits", 32))) if op == "uint_value" else (lambda: getattr(pdftypes, op)(px))
+    elif op in ("safe_int", "safe_float", "safe_rect_list"):
+        px = to_py(untok(inp["x"].split(" "))[0], doc)
+        fn = lambda: getattr(casting, op)(px)  # noqa: E731
+    elif op == "get_widths":
+        pseq = to_py(untok(inp["seq"].split(" "))[0], doc)
+        fn = lambda: get_widths(pseq)  # noqa: E731
+    elif op == "pagetree":
+        doc.catalog = to_py(untok(inp["catalog"].split(" "))[0], doc)
+
+        class Rec(PDFPage):
+            def __init__(self, d, pageid, attrs, label):  # noqa: ANN001
+                self.pageid, self.attrs = pageid, attrs
+        fn = lambda: [(p.pageid, p.attrs) for p in Rec.create_pages(doc)]  # noqa: E731
+    elif op == "xref":
+        from pdfminer.pdfdocument import PDFDocument
+        from pdfminer.pdfparser import PDFParser
+        blob = bytes.fromhex(inp["pdf"])
+
+        def fn():
+            parser = PDFParser(io.BytesIO(blob))
+            d = PDFDocument.__new__(PDFDocument)
+            parser.set_document(d)
+            d.decipher = None
+            xr: List[Any] = []
+            d.read_xref_from(parser, inp["start"], xr)
+            return len(xr)
+    else:
+        return
+    res = guarded(fn, strict=strict)
+    ctx.case(("replay-op", op, repr(sorted(inp.items(), key=str))), True, branch="replay:model:" + op + ":" + res[0])
+    if res[0] == "HANG" or (res[0] == "E" and not res[2]):
+        what = (f"{op} does not return (cyclic object graph)" if res[0] == "HANG"
+                else f"{op} leaks {res[1]} on an ill-typed / cyclic object graph")
+        ctx.fail(C.Failure(what, inp, "a value or an error of the PSException family", res[0] if res[0] == "HANG" else "E " + res[1],
+                           {"cls": "hang" if res[0] == "HANG" else "internal", "exc": "" if res[0] == "HANG" else res[1],
+                            "where": "model:" + op, "kind": "graph"}))
